@@ -3,7 +3,7 @@
 id=$1
 d=$(mktemp -d /tmp/qrv-b5-XXXXXX)
 git -C /repo archive HEAD | tar -x -C $d
-( cd $d && git apply --unsafe-paths /tmp/seed6/$id/patch.diff 2>/dev/null || patch -p1 --quiet < /tmp/seed6/$id/patch.diff ) || { echo "$id patch failed"; rm -rf $d; exit 3; }
+( cd $d && git apply --unsafe-paths ${2:-/tmp/seed6}/$id/patch.diff 2>/dev/null || patch -p1 --quiet < ${2:-/tmp/seed6}/$id/patch.diff ) || { echo "$id patch failed"; rm -rf $d; exit 3; }
 out=$d/.out; mkdir -p $out $d/.shim
 cat > $d/.shim/sitecustomize.py <<PYX
 import sys
